@@ -1,6 +1,8 @@
 package main
 
 import (
+	"os"
+	"runtime/debug"
 	"fmt"
 	"go/ast"
 	"go/constant"
@@ -146,6 +148,8 @@ type FnCtx struct {
 	candBlock     map[string]*ssa.BasicBlock
 	curBlock      *ssa.BasicBlock // block being executed in the top-level frame
 	appendLens    []string
+	storeRef      map[string]string // heap version defined as (store parent ref v) -> ref
+	mergeConst    map[string]bool   // heap versions defined as a merge (ite) of their parents
 	declStamp     map[int]int
 	stampFloor    int
 	candKind      map[string]int
@@ -800,7 +804,53 @@ func (fc *FnCtx) setDef(st *State, guard, name, term string) {
 		fc.heapAlloc[c] = fc.get(st, hAlloc)
 	}
 	fc.addFact("true", sEq(c, term))
+	// a plain store to the previous version: remember the row (used to relate spec folds across heap versions)
+	if cur, ok := st.vars[name]; ok && strings.HasPrefix(term, "(store "+cur+" ") {
+		if a := splitSexpr(term); len(a) == 4 {
+			if fc.storeRef == nil {
+				fc.storeRef = map[string]string{}
+			}
+			fc.storeRef[c] = a[2]
+		}
+	}
 	st.vars[name] = c
+}
+
+// foldBase walks a heap version back through plain stores to rows of objects that this function allocated and
+// that have not escaped (no heap location, parameter or result holds a reference to them), and through merges
+// whose branches all lead back to the same version. A spec fold whose arguments do not mention such an object
+// cannot read its row - the fold reaches rows only through its arguments and through references loaded from
+// the heap - so it has the same value in the version returned.
+func (fc *FnCtx) foldBase(h string, args string) string {
+	for depth := 0; depth < 200; depth++ {
+		var ps []string
+		seen := map[string]bool{}
+		for _, p := range fc.parents[h] {
+			if !seen[p] {
+				seen[p] = true
+				ps = append(ps, p)
+			}
+		}
+		if r, ok := fc.storeRef[h]; ok && len(ps) == 1 && fc.localRefs[r] && !strings.Contains(args, r) {
+			h = ps[0]
+			continue
+		}
+		if _, isStore := fc.storeRef[h]; !isStore && len(ps) > 1 {
+			b0 := fc.foldBase(ps[0], args)
+			same := true
+			for _, p := range ps[1:] {
+				if fc.foldBase(p, args) != b0 {
+					same = false
+				}
+			}
+			if same && fc.mergeConst[h] {
+				h = b0
+				continue
+			}
+		}
+		return h
+	}
+	return h
 }
 
 func arrSort(v string) string  { return "(Array Int " + v + ")" }
@@ -1220,6 +1270,13 @@ func (fc *FnCtx) escape(term string) {
 	}
 	for r := range fc.localRefs {
 		if strings.Contains(term, r) {
+			if os.Getenv("GVC_DEBUG_ESCAPE") != "" {
+				st := debug.Stack()
+				if len(st) > 1800 {
+					st = st[:1800]
+				}
+				fmt.Fprintf(os.Stderr, "escape %s via %.80s\n%s\n", r, term, st)
+			}
 			delete(fc.localRefs, r)
 		}
 	}
@@ -1231,6 +1288,12 @@ func (fc *FnCtx) escapeVal(v Val) {
 			fc.escapeVal(a)
 		}
 		return
+	}
+	if v.Typ != nil {
+		if _, basic := v.Typ.Underlying().(*types.Basic); basic {
+			// numbers, booleans and strings carry no reference, whatever terms their value was computed from
+			return
+		}
 	}
 	fc.escape(v.S)
 	if v.Loc != nil {
